@@ -64,14 +64,15 @@ class C15(Prop):
                 nodes, edges = self._graph(rng, "quick")
                 if len(edges) > 9:
                     nodes, edges = mp.named_motif(rng, "cycle", 4)
-                motifs.append({"name": f"{rng.choice(nodes)}-{m}", "nodes": nodes, "edges": edges})
+                motifs.append({"name": rng.choice([f"{rng.choice(nodes)}-{m}", f"near-clique-{m}", f"{m}-clique"]), "nodes": nodes, "edges": edges})
             calls = []
             for _ in range(rng.randint(3, 6)):
                 m = rng.choice(motifs)
                 calls.append({"name": m["name"], "nodes": m["nodes"], "edges": m["edges"], "root": rng.choice(m["nodes"])})
             return {"kind": "seq", "calls": calls}
         nodes, edges = self._graph(rng, tier)
-        c = {"kind": "one", "nodes": nodes, "edges": edges, "root": rng.choice(nodes)}
+        c = {"kind": "one", "nodes": nodes, "edges": edges, "root": rng.choice(nodes),
+             "name": rng.choice(["m", "m", "4-clique-minus-edge", "near-clique", "2,3-biclique", "clique", "", "cycle-7"])}
         # numeric evaluation points, including the ends of the admissible ranges: u exactly 0 or 1 at some vertices, phi 0 or 1
         pts = []
         for _ in range(2):
@@ -88,7 +89,7 @@ class C15(Prop):
         p = mp.pvar()
         if case["kind"] == "one":
             AE = AutomatedEquation()
-            H = mp.build_nx(case["nodes"], case["edges"], "m")
+            H = mp.build_nx(case["nodes"], case["edges"], case.get("name", "m"))      # the name is a label, not a description
             val = AE.automated_equation(H, p, case["root"])
             AE2 = AutomatedEquation()
             comps = AE2.get_connected_subgraphs(H, case["root"])
@@ -98,7 +99,7 @@ class C15(Prop):
                 for v in case["nodes"]:
                     x = Fraction(pt["u"][str(v)])
                     u[v] = (0 if pt["zero_as"] == "int" else Fraction(0)) if x == 0 else (1 if x == 1 and pt["zero_as"] == "int" else x)
-                Hn = mp.build_nx(case["nodes"], case["edges"], "num", u=u)
+                Hn = mp.build_nx(case["nodes"], case["edges"], case.get("name", "num"), u=u)
                 numeric.append(rs(Fraction(AutomatedEquation().automated_equation(Hn, Fraction(pt["phi"]), case["root"]))))
             return {"poly": mp.poly_canon(val), "components": sorted(sorted(c) for c in comps),
                     "n_components": len(comps), "numeric": numeric}
